@@ -305,6 +305,8 @@ def main():
     run = Run(PID, tier)
     from harness.lie import touch_all as _touch_all
     _touch_all()        # first uses of the Lie API happen BEFORE the models are derived (see harness/lie.py)
+    from harness import history as _history      # derivation histories in fresh interpreters (spec/DeriveHistory.tla)
+    _history.run_models(run, tier, ("bezier:bezier",))
     try:        # every exported trajectory function once by position and by its documented argument names
         from harness import cas as _cas
         from cyecca.models import bezier as _bz
